@@ -600,8 +600,14 @@ def rule_predicate_args(ctx: Ctx, rep: Report) -> None:
             else:
                 rep.ob(rule, f"{fi.qualname}:hf", a1 in ("None", "sha256", "hf", "self._hf"), fi.where(c), f"arithmetic-only delegation; asked with {a1}")
     rep.floor(rule, 35)
-    # token classes decide once, at construction
+    token_reask(ctx, rep, rule, None)
+
+
+def token_reask(ctx: Ctx, rep: Report, rule: str, only_module: str | None) -> None:
+    """Token classes decide their arm once, at construction."""
     for cls_q, field in TOKEN_FIELDS:
+        if only_module is not None and not cls_q.startswith(only_module + "."):
+            continue
         ci = ctx.cls(cls_q)
         for name, m in sorted(ci.methods.items()):
             if name in ("__init__", "__post_init__"):
